@@ -38,7 +38,7 @@ def examples(tier):
 def strategy(draw, tier="quick"):
     regime = draw(st.sampled_from(REGIMES))
     acyclic = draw(st.integers(0, 3)) == 0
-    m = draw(gen.automaton(regime=regime, acyclic=acyclic, alphabet=draw(st.sampled_from(gen.ALPHABETS))))
+    m = draw(gen.automaton(regime=regime, acyclic=acyclic, alphabet=draw(st.sampled_from(gen.ALPHABETS)), signed=True))
     return {"m": m, "cls": draw(st.sampled_from(["base", "field"])), "n": 3 if tier == "quick" else 4}
 
 
